@@ -57,12 +57,9 @@ def run(ctx):
     p13(ctx, R)
     p14(ctx, R)
     p15(ctx, R)
-    g2(ctx, R)
-    g4(ctx, R)
-    g5(ctx, R)
-    g6(ctx, R)
     from .c03 import g9, t3p
-    g9(ctx, R)
+    from .geval import with_g11
+    with_g11(ctx, R, [g2, g4, g5, g6, g9])
     t3p(ctx, R)
     # a verdict is returned at all: no str-only method on a list / test value before the slot's type test (X14 of C02)
     from .c02 import x14
